@@ -125,6 +125,16 @@ ATOMS = {
     "marker_in_string": dict(codes=[], lines=["print(\"# static analysis: ignore[undefined_name] is the marker {n}\", undefined_{n})"], simple=True),
     "marker_in_docstring": dict(codes=["undefined_name"], lines=["doc_{n} = \"\"\"usage:", "    # static analysis: ignore[undefined_name]", "\"\"\"", "print(doc_{n}, undefined_{n})"], simple=False, raw_continuation=True),
     # fixes whose operands have side effects: order and multiplicity of the calls must survive
+    # a fixable expression inside a statement that is rich in precedence / literal spellings: the fixer
+    # decompiles the WHOLE statement, so everything around the fix must come back unchanged
+    "fstring_kitchen_sink": dict(codes=["use_fstrings"], enable=["use_fstrings"], lines=[
+        "print((p + 1) * 2, \"%s\" % q, -p ** 2, (-p) ** 2, not (p and q), (lambda z=1: z + p)(), p if q else 3, [*pair, p], {{**{{\"k\": p}}}}, 1_000 + 0x10 + 1e3, \"x\" \"y{n}\", p < 4 < 5, (p, q)[0], 2 ** 3 ** 2, (2 ** 3) ** 2, p // 2 % 3, ~p & 7 | 1 ^ 2, p << 1 >> 1, (yield_like := p))"],
+        simple=True, fix=True),
+    "unused_kitchen_sink": dict(codes=["unused_variable"], lines=[
+        "if (p + 1) * 2 > -p ** 2 and not (p and q) or (p if q else 3):", "    unused_{n} = {n}", "    print([x_{n} for x_{n} in pair if x_{n} if p], {{k_{n}: v_{n} for k_{n}, v_{n} in [(1, 2)]}})"],
+        simple=False, fix=True),
+    "comp_kitchen_sink": dict(codes=["unused_variable"], lines=[
+        "print([None for cv_{n} in range(p)], (p + 1) * 2, -p ** 2, not (p or q), p if q else 3, 2 ** 3 ** 2, (lambda: p)(), [*pair], \"a\" \"b\", 0x10)"], simple=True, fix=True),
     "fstring_side_effects": dict(codes=[], enable=["use_fstrings"], lines=["na_{n} = noisy(\"a{n}\")", "nb_{n} = noisy(\"b{n}\")", "print(\"%s-%s-%s\" % (nb_{n}, na_{n}, nb_{n}))"], simple=False),
     "many_pos_side_effects": dict(codes=["too_many_positional_args"], enable=["too_many_positional_args"], lines=["print(takes_many(takes_int({n}), takes_int(2), takes_two(3, 4), 5))"], simple=True, fix=True, needs_max_pos=True),
     "walrus_unused": dict(codes=["unused_variable"], lines=["wx_{n} = (wy_{n} := p) + {n}", "print(wx_{n})"], simple=False, fix=True),
